@@ -19,6 +19,7 @@ THEOREMS = ['C19_format_parse_total', 'C19_format_no_panic', 'C19_arg_count_erro
             'C19_render_int_digits', 'C19_decimal_exact_below_2p53', 'C19_fixed_digits_correct', 'C19_fixed_is_rendered',
             'C19_g_shape', 'C19_exp_digits_correct', 'C19_exp_exponent', 'C19_exponent_unique', 'C19_exp_is_rendered',
             'C19_g_selects', 'C19_g_trim_keeps_value', 'C19_g_deviations',
+            'C19_shortest_sound', 'C19_shortest_tie_rule', 'C19_display_tie_up',
             'C19_pad_bytes_refuted', 'C19_fmt_prec_limit', 'C19_nonvacuous']
 ALLOWED_AXIOMS = set()
 TRANSLATORS = []
@@ -217,8 +218,12 @@ NUM_POOL = [0.0, -0.0, 1.0, -1.0, 2.0, 7.0, 8.0, 9.0, 10.0, 15.0, 16.0, 42.0, -4
 
 def gen_number(rng):
     r = rng.random()
-    if r < 0.45:
+    if r < 0.42:
         return rng.choice(NUM_POOL)
+    if r < 0.45:
+        # shortest-digits ties: K + 1/4 or K + 3/4 with 16 integer digits (ulp 1/8 or 1/4): the two
+        # 17-digit neighbours are equally close and both read back (Rust resolves upward)
+        return rng.choice([1, -1]) * (float(rng.randint(10 ** 15, 2 ** 51 - 1)) + rng.choice([0.25, 0.75]))
     if r < 0.55:
         return float(rng.randint(-1000, 100000))
     if r < 0.62:
